@@ -336,7 +336,7 @@ Qed.
 Lemma doc_decrypt_raw_eq6 ip objs eid d pw : shape_r6 ip -> lengths_r6 ip ->
   doc_decrypt P (enc_doc ip objs eid d) pw = doc_decrypt_raw P (enc_doc ip objs eid d) pw.
 Proof.
-  intros Hs HL. unfold doc_decrypt, is_encrypted. rewrite get_encrypted_enc_doc. cbn [negb].
+  intros Hs HL. unfold doc_decrypt, doc_decrypt_x, is_encrypted. rewrite get_encrypted_enc_doc. cbn [negb].
   rewrite palg_of_doc_eq, get_encrypted_enc_doc, (palg_of_write_params_r6 ip Hs HL).
   unfold sanitize_password. cbn [palg_of_ip pa_revision]. destruct Hs as [_ [-> | ->]]; reflexivity.
 Qed.
